@@ -3,6 +3,9 @@ from tools import push, vlib
 
 
 
+KEY_RESOLVE = "resolve_futures/start_send-after-poll_finalize-began"
+
+
 class C12(vlib.Spec):
     model_vo = ["theories/Push/Run.vo"]
     props_vo = "theories/Props/C12.vo"
@@ -38,6 +41,11 @@ class C12(vlib.Spec):
 
     def shrink(self, case):
         return push.shrink_push(case)
+
+    def finding_key(self, case, res):
+        if push.resolve_send_after_fin(case, res):
+            return KEY_RESOLVE
+        return None
 
     def nontrivial(self, case, res):
         logs = res.get("logs", [])
